@@ -234,7 +234,8 @@ def _ext_slices(r):
     return r.choice([slice(None, None, 2), slice(1, None, 2), slice(None, None, -1), slice(None, None, 3), slice(None, 0, -1),
                      slice(None, None, 2), slice(None, None, -1),
                      # negative steps whose range is empty or clipped (range(n)[-10::-1] is range(-1, -1, -1))
-                     slice(-10, None, -1), slice(-10, -20, -1), slice(-10, None, -2), slice(1, None, -1), slice(-2, None, -2), slice(0, None, -1)])
+                     slice(-10, None, -1), slice(-10, -20, -1), slice(-10, None, -2), slice(1, None, -1), slice(-2, None, -2), slice(0, None, -1),
+                     slice(-10, 0, -3), slice(-10, 1, -1), slice(-10, 0, -1), slice(20, 30, 2)])
 
 
 class Generator:
@@ -847,7 +848,8 @@ class Generator:
                 del ref[sl]
             elif op == 'setslice':
                 sl = r.choice([slice(0, 1), slice(1, 2), slice(None, None, 2), slice(-1, None), slice(0, 2),
-                               slice(None, None, -1), slice(-10, None, -1), slice(-10, -20, -1), slice(-10, None, -2), slice(1, None, -1)])
+                               slice(None, None, -1), slice(-10, None, -1), slice(-10, -20, -1), slice(-10, None, -2), slice(1, None, -1),
+                               slice(-10, 0, -3), slice(-10, 1, -1), slice(-10, 0, -1)])
                 size = len(ref[sl])
                 cnt = size if r.random() < 0.8 else size + 1
                 vs = [mk() for _ in range(cnt)]
